@@ -31,6 +31,7 @@ import (
 	"github.com/cloudwego/eino/internal/generic"
 	"github.com/cloudwego/eino/internal/gmap"
 	"github.com/cloudwego/eino/internal/gslice"
+	"github.com/cloudwego/eino/internal/verifhook"
 )
 
 // NewChain create a chain with input/output type.
@@ -335,7 +336,11 @@ func (c *Chain[I, O]) AppendBranch(b *ChainBranch) *Chain[I, O] { // nolint: byt
 	prefix := c.nextNodeKey()
 	key2NodeKey := make(map[string]string, len(b.key2BranchNode))
 
+	bkeys, bi := verifhook.SortedKeys(b.key2BranchNode), 0
 	for key := range b.key2BranchNode {
+		if verifhook.On { // simulator: deterministic (sorted) construction order
+			key, bi = bkeys[bi], bi+1
+		}
 		node := b.key2BranchNode[key]
 
 		var nodeKey string
@@ -404,6 +409,8 @@ func (c *Chain[I, O]) AppendBranch(b *ChainBranch) *Chain[I, O] { // nolint: byt
 	}
 
 	c.preNodeKeys = gmap.Values(key2NodeKey)
+	verifhook.Order(len(c.preNodeKeys), func(i, j int) bool { return c.preNodeKeys[i] < c.preNodeKeys[j] },
+		func(i, j int) { c.preNodeKeys[i], c.preNodeKeys[j] = c.preNodeKeys[j], c.preNodeKeys[i] })
 
 	return c
 }
